@@ -106,6 +106,44 @@ def build_model(kind, compiled):
             path, build_code=compiled)
 
 
+def decoy_model(kind):
+    """Another model of the same make - other values, the names bound to
+    other cells -, compiled and evaluated, with the evaluator made for it: the
+    Model object a file is loaded into need not be a new one."""
+    if kind == 'dict':
+        cells = dict(DICT_CELLS)
+        cells.update({S1 + 'A1': 100, S1 + 'A2': 'old', S1 + 'A3': 0.5,
+                      S1 + 'B1': '=A1*A3', S1 + 'C9': 'stays?'})
+        model = lib.ModelCompiler().read_and_parse_dict(cells)
+    else:
+        sheets = [
+            ('Sheet1', {
+                'A1': {'form': 'n', 'v': 100}, 'A2': {'form': 'n', 'v': 200},
+                'A3': {'form': 'n', 'v': 300},
+                'B1': {'form': 'f', 'f': 'A1*2'},
+                'B2': {'form': 'f', 'f': 'nm+1'},
+                'B4': {'form': 'f', 'f': 'SUM(rng)'},
+                'C9': {'form': 's', 'v': 'stays?'},
+            }),
+            ('My Sheet', {'A1': {'form': 'n', 'v': 30}}),
+        ]
+        names = {'nm': 'Sheet1!$A$2', 'rng': 'Sheet1!$A$2:$A$3',
+                 'fnm': 'Sheet1!$B$2', 'old': 'Sheet1!$A$3'}
+        path = os.path.join(tmpdir(), 'decoy_%d.xlsx' % os.getpid())
+        if not os.path.exists(path):
+            with open(path, 'wb') as fp:
+                fp.write(R.build(sheets, names))
+        import warnings
+        with warnings.catch_warnings():
+            warnings.simplefilter('ignore')
+            model = lib.ModelCompiler().read_and_parse_archive(path)
+    ev = lib.Evaluator(model)
+    for a in sorted(model.formulae):
+        if '!' in a:
+            lib.observe(ev.evaluate, a)
+    return model, ev
+
+
 _TMP = None
 
 
@@ -242,6 +280,27 @@ def check_state(kind, compiled, hist, ctx):
             ctx.fail('%s#%s/snapshot' % (key0, ext),
                      tags + ['fmt:' + ext, 'oracle:snapshot'], inputs,
                      'equal', 'differs:' + d[0], nontriv, d[1])
+    old_evaluators = {}
+    if any(e == 'json' for e, _ in restored):
+        # the same file loaded into a Model object that held another model
+        path = os.path.join(tmpdir(), 'm_%d.json' % os.getpid())
+        r, ev_old = decoy_model(kind)
+        o = lib.observe(r.construct_from_json_file, path, True)
+        rt = tags + ['fmt:json', 'load:into-used-model']
+        if o != 'blank':
+            ctx.fail('%s#reload/restore' % key0, rt, inputs, 'restores', o,
+                     nontriv)
+        else:
+            ctx.count('transitions')
+            restored.append(('reload', r))
+            old_evaluators['reload'] = ev_old
+            d = diff_snap(snap0, snapshot(r))
+            if d is None:
+                ctx.ok('%s#reload/snapshot' % key0, 'equal', nontriv)
+            else:
+                ctx.fail('%s#reload/snapshot' % key0,
+                         rt + ['oracle:snapshot'], inputs, 'equal',
+                         'differs:' + d[0], nontriv, d[1])
     ctx.check(key0 + '#persist-pure', explore.fingerprint(model), fp0,
               tags + ['oracle:persist-pure'], inputs, False)
     # the original keeps working after it was persisted (no recompilation):
@@ -262,19 +321,26 @@ def check_state(kind, compiled, hist, ctx):
         return
     ev0 = lib.Evaluator(model)
     want = {a: lib.observe(ev0.evaluate, a) for a in sorted(model.cells)}
-    for ext, r in restored:
-        evr = lib.Evaluator(r)
+    routes = [(ext, ext, lib.Evaluator(r)) for ext, r in restored]
+    if 'reload' in old_evaluators:
+        # ... and the evaluator made for that Model object before the load
+        routes.append(('reload-old-evaluator', 'reload',
+                       old_evaluators['reload']))
+    for label, ext, evr in routes:
         bad = None
         for a in sorted(want):
             g = lib.observe(evr.evaluate, a)
             if g != want[a]:
                 bad = (a, want[a], g)
                 break
+        rt = tags + (['fmt:' + ext] if ext != 'reload' else
+                     ['fmt:json', 'load:into-used-model']) + (
+            ['evaluator:made-before-load'] if label != ext else [])
         if bad is None:
-            ctx.ok('%s#%s/evaluate' % (key0, ext), 'equal', nontriv)
+            ctx.ok('%s#%s/evaluate' % (key0, label), 'equal', nontriv)
         else:
-            ctx.fail('%s#%s/evaluate' % (key0, ext),
-                     tags + ['fmt:' + ext, 'oracle:evaluate'], inputs,
+            ctx.fail('%s#%s/evaluate' % (key0, label),
+                     rt + ['oracle:evaluate'], inputs,
                      'cell %s = %s' % (bad[0], bad[1]), bad[2], nontriv)
     lib.clear_caches()
 
@@ -330,8 +396,62 @@ def check_names(kind, compiled, ctx):
     lib.clear_caches()
 
 
+# -- long formulas: the syntax tree of a compiled model is part of the file ----
+DEEP_FORMS = (('sum', lambda n: '=' + '+'.join(['A1'] * n)),
+              ('nested', lambda n: '=' + 'ABS(' * n + 'A1' + ')' * n))
+DEEP_SIZES = {'sum': (20, 80, 150, 300), 'nested': (10, 35, 60)}
+
+
+def check_deep(form, n, compiled, evaluated, ctx):
+    import sys
+    old = sys.getrecursionlimit()
+    sys.setrecursionlimit(1000)            # the interpreter's default
+    try:
+        _check_deep(form, n, compiled, evaluated, ctx)
+    finally:
+        sys.setrecursionlimit(old)
+
+
+def _check_deep(form, n, compiled, evaluated, ctx):
+    text = dict(DEEP_FORMS)[form](n)
+    key0 = 'C12/deep/%s/%d/%s%s' % (form, n, 'compiled' if compiled
+                                    else 'uncompiled',
+                                    '+evaluated' if evaluated else '')
+    inputs = {'family': 'deep', 'form': form, 'n': n, 'compiled': compiled,
+              'evaluated': evaluated}
+    tags = ['formula:deep', 'deep:%s' % form,
+            'init:' + ('compiled' if compiled else 'uncompiled'),
+            'depth:%s' % ('over-100' if n > 100 else 'up-to-100')]
+    model = lib.ModelCompiler().read_and_parse_dict(
+        {S1 + 'A1': -2, S1 + 'B1': text, S1 + 'B2': '=B1*2'},
+        build_code=compiled)
+    if evaluated:
+        lib.observe(lib.Evaluator(model).evaluate, S1 + 'B2')
+    snap0 = snapshot(model)
+    path = os.path.join(tmpdir(), 'deep_%d.json' % os.getpid())
+    w = lib.observe(model.persist_to_json_file, path)
+    if w != 'blank':
+        ctx.fail(key0 + '/persist', tags, inputs, 'persists', w)
+        return
+    r = lib.Model()
+    o = lib.observe(r.construct_from_json_file, path, True)
+    if o != 'blank':
+        ctx.fail(key0 + '/restore', tags, inputs, 'restores', o)
+        return
+    d = diff_snap(snap0, snapshot(r))
+    ctx.check(key0 + '/snapshot', 'equal' if d is None else
+              'differs:' + d[0], 'equal', tags + ['oracle:snapshot'], inputs)
+    c = lib.observe(model.build_code)
+    ev0, evr = lib.Evaluator(model), lib.Evaluator(r)
+    for a in (S1 + 'B1', S1 + 'B2'):
+        ctx.check('%s/evaluate/%s' % (key0, a), lib.observe(evr.evaluate, a),
+                  lib.observe(ev0.evaluate, a), tags + ['oracle:evaluate'],
+                  inputs)
+    lib.clear_caches()
+
+
 def plan(tier):
-    shards = [{'family': 'names'}]
+    shards = [{'family': 'names'}, {'family': 'deep'}]
     depth = DEPTH[tier]
     for kind in ('dict', 'xlsx'):
         n = len(alphabet(kind))
@@ -357,6 +477,15 @@ def run_shard(shard, ctx):
                 check_names(kind, compiled, ctx)
         ctx.sample({'family': 'file names', 'names': list(FILE_NAMES)})
         return
+    if shard.get('family') == 'deep':
+        for form, _ in DEEP_FORMS:
+            for n in DEEP_SIZES[form]:
+                for compiled in (False, True):
+                    for evaluated in ((False, True) if compiled
+                                      else (False,)):
+                        check_deep(form, n, compiled, evaluated, ctx)
+        ctx.sample({'family': 'deep', 'formula': '=A1+A1+ ... (80 terms)'})
+        return
     kind, compiled = shard['kind'], shard['compiled']
     ops = alphabet(kind)
     if shard['prefix'] is None:
@@ -376,6 +505,10 @@ def run_shard(shard, ctx):
 def replay(inputs, ctx):
     if inputs.get('family') == 'names':
         check_names(inputs['kind'], inputs['compiled'], ctx)
+        return
+    if inputs.get('family') == 'deep':
+        check_deep(inputs['form'], inputs['n'], inputs['compiled'],
+                   inputs['evaluated'], ctx)
         return
     hist = [tuple(o) for o in inputs['history']]
     check_state(inputs['kind'], inputs['compiled'], hist, ctx)
